@@ -7,7 +7,14 @@
    (graph_roundtrip KIND A B (OP ...)) run the ops, then to_networkx / from_networkx on the model
      -> (init-error) | (ok OUTCOME VIEW)
    VIEW = (order count edges edges2 has nbr1 nbr2 deg1 deg2 dag), has = positions (row col) of the true entries of the
-   has_edge matrix over the query range -1 .. n+2 (position p = vertex p - 1) ; OUTCOME = ok | ValueError | NoMethod | Crash *)
+   has_edge matrix over the query range -1 .. n+2 (position p = vertex p - 1) ; OUTCOME = ok | ValueError | NoMethod | Crash
+   (graph_probe KIND A B Q ((OP Q) ...))   the same run with views restricted to the queries the caller names (large graphs:
+       the full has_edge matrix is quadratic); Q = (FULL (u ...) (v ...) ((u v) ...))
+     -> (init-error) | (ok PVIEW ((OUTCOME PVIEW) ...))
+   PVIEW = (order count edges edges2 has nbr1 nbr2 deg1 deg2 dag): edges / edges2 are (some LISTING) when FULL is true and none
+   otherwise; has = has_edge on the listed pairs (booleans, in order); nbr1 / deg1 = neighbors|successors|right_neighbors and
+   degree|out_degree|right_degree on the first vertex list; nbr2 / deg2 = --|predecessors|left_neighbors and --|in_degree|
+   left_degree on the second one (empty for simple graphs).  Only view functions of coq/GraphObj.v are called. *)
 open Model
 open Sx
 
@@ -35,6 +42,27 @@ let of_view (v : view) =
      of_list (of_opt of_zl) v.vw_nbr1; of_list (of_opt of_zl) v.vw_nbr2;
      of_list (of_opt of_z) v.vw_deg1; of_list (of_opt of_z) v.vw_deg2; of_bool v.vw_dag]
 
+let to_query = function
+  | L [full; qu; qv; pairs] -> (to_bool full, to_zl qu, to_zl qv, to_list (to_pair to_z to_z) pairs)
+  | _ -> raise (Bad "graph query")
+
+let probe_view (st : anystate) (full, qu, qv, pairs) =
+  let opt_edges f = if full then L [A "some"; of_edges (f ())] else A "none" in
+  let nb f q = of_list (of_opt of_zl) (List.map f q) and dg f q = of_list (of_opt of_z) (List.map f q) in
+  let hs f = of_list (fun (u, v) -> of_bool (f u v)) pairs in
+  match st with
+  | SG s -> L [of_z s.g_n; of_z s.g_m; opt_edges (fun () -> g_edges s); opt_edges (fun () -> []); hs (g_has_edge s);
+               nb (g_neighbors s) qu; L []; dg (g_degree s) qu; L []; of_bool false]
+  | SD s -> L [of_z s.d_n; of_z s.d_m; opt_edges (fun () -> d_edges s); opt_edges (fun () -> d_edges_by_dest s); hs (d_has_edge s);
+               nb (d_successors s) qu; nb (d_predecessors s) qv; dg (d_out_degree s) qu; dg (d_in_degree s) qv; of_bool s.d_dag]
+  | SB s -> L [of_z (Z.add s.b_l s.b_r); of_z (b_number_of_edges s); opt_edges (fun () -> b_edges s); opt_edges (fun () -> []);
+               hs (b_has_edge s); nb (b_right_neighbors s) qu; nb (b_left_neighbors s) qv;
+               dg (b_right_degree s) qu; dg (b_left_degree s) qv; of_bool false]
+
+let rec probe_trace st = function
+  | [] -> []
+  | (o, q) :: r -> let (st', out) = any_step st o in L [of_outcome out; probe_view st' q] :: probe_trace st' r
+
 let rec run_all s = function
   | [] -> s
   | o :: r -> run_all (fst (any_step s o)) r
@@ -45,6 +73,14 @@ let () =
         (match graph_run (kind_of (to_sym k)) (to_z a) (to_z b) (to_list op_of ops) with
          | None -> L [A "init-error"]
          | Some (v0, tr) -> L [A "ok"; of_view v0; of_list (fun (o, v) -> L [of_outcome o; of_view v]) tr])
+      | _ -> raise (Bad "arity"));
+  register "graph_probe" (function
+      | [k; a; b; q0; steps] ->
+        (match any_init (kind_of (to_sym k)) (to_z a) (to_z b) with
+         | None -> L [A "init-error"]
+         | Some s ->
+           let steps = to_list (function L [o; q] -> (op_of o, to_query q) | _ -> raise (Bad "graph step")) steps in
+           L [A "ok"; probe_view s (to_query q0); L (probe_trace s steps)])
       | _ -> raise (Bad "arity"));
   register "graph_roundtrip" (function
       | [k; a; b; ops] ->
